@@ -429,7 +429,7 @@ var EditKinds = []string{
 	"add-table", "drop-table", "add-column", "add-generated-column", "drop-column",
 	"change-type", "toggle-null", "change-default", "add-index", "drop-index", "modify-index",
 	"add-check", "drop-check", "modify-check", "add-fk", "drop-fk", "modify-fk",
-	"toggle-without-rowid", "toggle-strict", "toggle-autoincrement", "modify-generated",
+	"toggle-without-rowid", "toggle-strict", "toggle-autoincrement", "modify-generated", "generated-to-regular",
 }
 
 // Edit applies one elementary edit and returns its kind ("" if nothing applicable).
@@ -636,6 +636,18 @@ func (g *Gen) Edit(s *Sch, maxTables int) string {
 			return ""
 		}
 		t.AutoInc = !t.AutoInc
+	case "generated-to-regular":
+		var gs []*Col
+		for _, c := range t.Cols {
+			if c.Gen != "" {
+				gs = append(gs, c)
+			}
+		}
+		if len(gs) == 0 {
+			return ""
+		}
+		c := gs[g.T.Draw("gen-col", len(gs))]
+		c.Gen, c.GenStored = "", false
 	case "modify-generated":
 		var gs []*Col
 		for _, c := range t.Cols {
